@@ -79,7 +79,7 @@ def classify_violation(src):
 
 def sweep(ctx):
     import lua_run
-    nb = 16 if ctx.tier == "quick" else 120
+    nb = 16 if ctx.tier == "quick" else 80
     bs = base.bases(ctx, nb, salt="c02base")
     srcs, meta = [], []
     for bi, (t, g) in enumerate(bs):
@@ -122,7 +122,7 @@ def sweep(ctx):
 
 
 def tie(ctx):
-    nb = 16 if ctx.tier == "quick" else 120
+    nb = 16 if ctx.tier == "quick" else 80
     bs = base.bases(ctx, nb, salt="c02base")
     cases = base.corpus_cases("C02")
     for bi, (t, g) in enumerate(bs):
